@@ -13,6 +13,15 @@ impl AdjacencyMatrix {
     spec fn outdeg(&self, u: int) -> nat { out_set_below(*self, u, self.order as int).len() }
 }
 
+/// faithfulness of the neighbour sets: exactly the in- / out-neighbours
+proof fn lemma_deg_sets(g: AdjacencyMatrix, x: int)
+    ensures
+        forall|a: int| #[trigger] in_set_below(g, x, g.order as int).contains(a) == g.has(a, x),
+        forall|b: int| #[trigger] out_set_below(g, x, g.order as int).contains(b) == g.has(x, b),
+{
+    range_set_properties::<int>(0, g.order as int);
+}
+
 /// the in-neighbours of v among the vertices below k, ascending (the items of `vertices().filter(|&u| has_arc(u, v))`)
 spec fn col_below(g: AdjacencyMatrix, v: int, k: int) -> Seq<usize>
     decreases k
@@ -170,6 +179,30 @@ proof fn lemma_size(g: AdjacencyMatrix, s: Seq<usize>)
     range_set_properties::<int>(0, g.ncells());
     assert(cells_below(g, 64 * n) =~= cells_below(g, g.ncells()));
     lemma_len_subset(set_cells(g), Set::<int>::range(0, g.ncells()));
+}
+
+/// faithfulness of `set_cells`: its elements are exactly the cell indices u * order + v of the arcs (u, v), one per arc
+proof fn lemma_set_cells(g: AdjacencyMatrix)
+    requires g.wf(),
+    ensures
+        forall|j: int| #[trigger] set_cells(g).contains(j) ==> 0 <= j < g.ncells() && g.has(j / (g.order as int), j % (g.order as int))
+            && (j / (g.order as int)) * g.order + j % (g.order as int) == j,
+        forall|u: int, v: int| #[trigger] g.has(u, v) ==> set_cells(g).contains(u * g.order + v),
+        forall|a: int, b: int, u: int, v: int| g.has(a, b) && g.has(u, v) && a * g.order + b == u * g.order + v ==> a == u && b == v,
+{
+    let n = g.order as int;
+    range_set_properties::<int>(0, g.ncells());
+    assert forall|j: int| #[trigger] set_cells(g).contains(j) implies 0 <= j < g.ncells() && g.has(j / n, j % n) && (j / n) * n + j % n == j by {
+        vstd::arithmetic::div_mod::lemma_fundamental_div_mod(j, n);
+        assert(n * (j / n) == (j / n) * n) by (nonlinear_arith);
+        assert(0 <= j / n < n) by (nonlinear_arith) requires (j / n) * n + j % n == j, 0 <= j < n * n, 0 <= j % n < n, n > 0;
+    }
+    assert forall|u: int, v: int| #[trigger] g.has(u, v) implies set_cells(g).contains(u * g.order + v) by {
+        lemma_index_bound(u, v, n);
+    }
+    assert forall|a: int, b: int, u: int, v: int| g.has(a, b) && g.has(u, v) && a * g.order + b == u * g.order + v implies a == u && b == v by {
+        lemma_index_inj(a, b, u, v, n);
+    }
 }
 
 impl AdjacencyMatrix {
